@@ -207,6 +207,25 @@ type Skips struct {
 // Touch keeps the unexported field from being reported unused.
 func (s *Skips) Touch() { s.lower++ }
 
+// TaggedUnexported: unexported fields that carry json names (a struct shared with
+// other serialisers), one of them of a type Avro cannot express, and an embedded
+// unexported struct type with a name of its own. None of them is a field of the record.
+type hiddenInner struct {
+	Q int64 `json:"q"`
+}
+
+type TaggedUnexported struct {
+	ID          int64    `json:"id"`
+	etag        string   `json:"etag"`
+	pending     chan int `json:"pending"`
+	hiddenInner `json:"inner"`
+	Name        string `json:"name,omitempty"`
+	count       int64  `json:"count,omitempty"`
+}
+
+// Touch keeps the unexported fields from being reported unused.
+func (t *TaggedUnexported) Touch() { t.etag, t.count = "x", 1; t.pending = nil; t.hiddenInner.Q++ }
+
 type Embeds struct {
 	Inner
 	X int64 `json:"x"`
@@ -294,6 +313,7 @@ func init() {
 	reg[Omit]("Omit", true)
 	reg[Skips]("Skips", true)
 	reg[Embeds]("Embeds", true)
+	reg[TaggedUnexported]("TaggedUnexported", true)
 	reg[ReuseTwice]("ReuseTwice", true)
 	reg[ReuseDeep]("ReuseDeep", true)
 	reg[sub.Odd]("SubOdd", true)
